@@ -34,7 +34,9 @@ Arg == {2, 3}                   \* the argument set of in / containsAll / contai
 \* "...Halves": the property holds the numbers v + 0.5 and the argument is [2.5, 3.5]; "inIntsOnFractions": the property
 \* holds v + 0.7 and the argument is [2, 3] ("values can be booleans, numeric values, or strings", section 2.6)
 PerValue == {"minInclusive", "maxInclusive", "minExclusive", "maxExclusive", "minInclusiveFloat", "maxExclusiveFloat",
-             "minLength", "maxLength", "exactLength", "pattern", "in", "inNumbers", "inHalves", "inIntsOnFractions"}
+             "minLength", "maxLength", "exactLength", "pattern", "in", "inNumbers", "inHalves", "inIntsOnFractions",
+             \* "...Fine": the property holds v + 0.00000005 and the argument has seven decimals (2.0000001, 3.0000001)
+             "minInclusiveFine", "maxExclusiveFine"}
 SetKinds == {"containsAll", "containsSome", "containsAllHalves", "containsSomeHalves"}
 CountKinds == {"minCount", "maxCount", "exactCount"}
 PairKinds == {"lessThanProperty", "lessThanOrEqualsToProperty", "equalsToProperty", "disjointWithProperty"}
@@ -48,6 +50,8 @@ Good(k, v) ==
     [] k = "minLength" -> v >= 2     [] k = "maxLength" -> v <= 3   [] k = "exactLength" -> v = 2
     [] k = "pattern" -> v \in Arg    [] k = "in" -> v \in Arg       [] k = "inNumbers" -> v \in Arg
     [] k = "inHalves" -> v \in Arg   [] k = "inIntsOnFractions" -> FALSE      \* no v + 0.7 is one of 2, 3
+    [] k = "minInclusiveFine" -> v >= 3     \* 2.00000005 < 2.0000001 <= 3.00000005
+    [] k = "maxExclusiveFine" -> v <= 3     \* 3.00000005 < 3.0000001 < 4.00000005
 
 PairOp(k, a, b) ==
   CASE k = "lessThanProperty" -> a < b [] k = "lessThanOrEqualsToProperty" -> a <= b
